@@ -346,6 +346,7 @@ def generate(repo, contracts, twin=False, only=None):
             items = rules.prepare_custom_packet(items, ctx)
         items = rules.expand_macros(items, ctx)
         items = rules.flatten_fci(items, ctx, modpath)
+        items = rules.split_iterators(items, ctx)
         assign_keys(items, modpath)
         rules.collect_enums(items, ctx)
         rules.collect_hoisted(items, ctx, modpath)
